@@ -12,7 +12,7 @@ NOTE = ("Trusted: go/types, go/ssa, go/packages as used by the checker; the Go t
 claims = {
  "C07": ("Decides on SSA, for every Cache.GetFile call site and for the linker reuse in PatchLinker, that a missing/short entry takes the recompute path: "
          "GetFile errors are only compared with nil and miss-only code never fails; computePkgCache recurses into, merges and stores missing dependency entries; "
-         "the linker is reused only under stamp-and-file guards that bind the file's content (known finding F9 until repaired); go-internal's GetFile compares sizes. "
+         "the linker is reused only under stamp-and-file guards that bind the file's content (its size is part of the stamp); go-internal's GetFile compares sizes. "
          "Decides this clause, not that the rebuilt binary equals a cold build.",
          "SSA dominance + must-pass-through + backward dependence slices over go/ssa", "4 C07"),
  "C19": ("Decides on SSA that every filesystem effect in garble (28 create/write/mkdir/remove sites, 12 spawned commands) is rooted in garble's own temp dir, cache, "
@@ -30,12 +30,12 @@ claims = {
          "plus purity (globals, external calls, hasher protocol, result copied) and the closed set of callers. Axioms: SHA-256 bytes arbitrary, base64 writes alphabet symbols. "
          "Decides well-formedness, export preservation and purity for all inputs; does not decide collision freedom or keyword clashes.",
          "abstract interpretation (byte-set domain, exhaustive case split) of go/ssa plus global/effect enumeration", "4 C16"),
- "C03": ("Decides the determinism-effect clauses over the call-graph region that computes compiler/assembler/linker input (306 functions) plus the top-level preparation (48): "
+ "C03": ("Decides the determinism-effect clauses over the call-graph region that computes compiler/assembler/linker input (about 320 functions) plus the top-level preparation (about 55): "
          "no process-global or environmental randomness/time (clock values must provably end only in log.Print*), every unordered iteration proved harmless (collected-then-sorted, slices.Sorted) "
          "or in a reviewed table keyed by function+ranged expression+body effects, no goroutines/select (with a positive control), and a single seeded math/rand generator created in transformCompile. "
-         "One known finding (F6: reflection fix-point visits ssaPkg.Members in map order). Decides these necessary conditions, not equality of any two binaries nor determinism of dependencies and toolchain.",
+         "Shares R07.2 with C07 (a dependency's reflection facts are recomputed when its cache entry is missing, whatever the cache state). Decides these necessary conditions, not equality of any two binaries nor determinism of dependencies and toolchain.",
          "effect analysis over a conservative module call graph on go/ssa (reachability, loop-body effect fingerprints, purity and sort-dominance provers)", "4 C03"),
- "C06": ("Decides the cache-key clauses: every configuration item (flag, sharedCache field, environment variable, cross-package option) read in the 306-function tool-input region either influences "
+ "C06": ("Decides the cache-key clauses: every configuration item (flag, sharedCache field, environment variable, cross-package option) read in the tool-input region (about 320 functions) either influences "
          "the bytes addGarbleToHash writes (appendFlags specialised for forBuildHash=true by boolean constant propagation; data and control influence on live writes, including range-over-func bodies) "
          "or is exempt with a reason; cache ids are GarbleActionID or domain-separated derivations with matching writers and readers; GarbleActionID has one definition; -V=full is answered through addGarbleToHash; "
          "the linker stamp is written and compared with the same operands and covers every patch file. Decides these clauses, not the completeness of cmd/go's own action IDs.",
@@ -60,7 +60,7 @@ claims = {
          "path enumeration and dominance on go/ssa + filesystem-effect enumeration", "4 C18"),
  "C08": ("Decides coverage and plumbing clauses: the reflected-type walker's component coverage against what reflect.Type can navigate (Elem x5, map Key, struct fields, func params/results, Named underlying, Alias rhs); "
          "CopyFrom merges every pkgCache field and the seed table names reflect.TypeOf/ValueOf; coverage floors of the five SSA switches of the analysis (25 cases); the fix-point has no pruning state and its progress measure counts parameter sets; "
-         "name pairs are emitted sorted; the abi patch anchor occurs exactly once in the pinned toolchain's internal/abi/type.go and the linkname names agree. Decides these clauses, not the soundness of the taint heuristic over all flows.",
+         "name pairs are emitted sorted; the abi patch anchor occurs exactly once in the pinned toolchain's internal/abi/type.go and the linkname names agree; shares R07.2 with C07 (facts of a dependency that can reach reflect transitively are recomputed on a cache miss, merged and stored). Decides these clauses, not the soundness of the taint heuristic over all flows.",
          "component/field/case coverage extraction from go/ssa + text-level agreement with GOROOT source", "4 C08"),
  "C13": ("Decides single-source clauses: garble map takes every name from obfuscatedObjectName and every path from obfuscatedImportPath (no hashing of its own); every transformer field the naming decision transitively reads is set by "
          "transformerForListedPackage; build/map/reverse fill the package list through toolexecCmd -> appendListedPackages and type-check with <pkg>.ImportPath and importerForPkg(<pkg>); map skips objects only for the four documented reasons. "
@@ -80,7 +80,7 @@ claims = {
          "type-switch case extraction, operand/field coverage and reachability on go/ssa", "4 C11"),
  "C01": ("Decides agreement clauses between garble's renaming outside Go syntax and its single naming decision: hash funnel; the four out-of-syntax rename sites test compilerIntrinsics on the values they rename; only three functions hash a package's ImportPath "
          "and all eight emitters take the path from obfuscatedImportPath; the linker patches read the variables garble exports, the entry-offset formula has the same operator tree on both sides and the patched anchors exist in the pinned toolchain; "
-         "all eleven documented naming exceptions are present (complete name lists); -X is duplicated under obfuscated path and name; qualified symbols are hashed with the package their path names. Decides these clauses, not program equivalence.",
+         "all eleven documented naming exceptions are present (complete name lists); -X is duplicated under obfuscated path and name; qualified symbols are hashed with the package their path names; both -X parsers split at the last dot before '=' as cmd/link does. Decides these clauses, not program equivalence.",
          "site-vs-site and table-vs-text agreement over go/ssa, go/ast and GOROOT sources", "4 C01"),
  "C02": ("Decides must-pass-through and closed-set clauses: linker flags (-buildid=, -w, -s, buildVersion, importcfg) and compile flags (-dwarf=false, -p, -importcfg, -trimpath with the temp dir first) are data dependencies of every success return; "
          "-trimpath/-buildvcs=false reach both go invocations; the per-file pipeline goes through transformDirectives, transformGoFile, the package rename and printFile; the default //line header precedes all copied bytes and both comment filters keep only //go:; "
